@@ -145,7 +145,7 @@ impl Monitor for LiquidityMonitor {
                     }
                 }
             }
-            Op::Swap { .. } => {
+            Op::Swap { .. } | Op::SwapBack { .. } => {
                 if let Some(o) = &r.outcome {
                     for s in &o.steps {
                         if let Some(t) = s.crossed_initialized_tick {
